@@ -196,10 +196,12 @@ Section Live.
 
   (* in the ordinary case (str(value) works, no display-time suggestion) that is the
      traceback the interpreter shows *)
+  Lemma ei_msg_base e : ei_msg e = std_base_msg e.
+  Proof. unfold ei_msg, std_base_msg. destruct (ex_str e); reflexivity. Qed.
+
   Lemma plain_exc_tb fs e : plain_exc e = true -> ei_tb fs e = std_tb C fs e.
   Proof.
-    unfold plain_exc, ei_tb, std_tb, std_msg, hint_of, std_base_msg, ei_msg.
-    destruct (ex_str e) as [s|]; [|discriminate]. intro H. rewrite H. rewrite app_nil_r. reflexivity.
+    unfold plain_exc, ei_tb, std_tb, std_msg, hint_of. intro H. rewrite H, app_nil_r, ei_msg_base. reflexivity.
   Qed.
 
   (* Callpoint.line against FrameSummary.line *)
